@@ -345,7 +345,8 @@ class error_999_visitor(pyx12.error_visitor.error_visitor):
             seg_base.set('01-2', '%i' % (err_ele.subele_pos))
         if err_ele.repeat_pos:
             seg_base.set('01-3', '%i' % (err_ele.repeat_pos))
-        if err_ele.ele_ref_num:
+        # a composite has no data element reference number (its map id is C0xx)
+        if err_ele.ele_ref_num and err_ele.ele_ref_num.isdigit():
             seg_base.set('02', err_ele.ele_ref_num)
         seg_str = seg_base.format('~', '*', ':')
         for (err_cde, err_str, bad_value) in err_ele.errors:
